@@ -1037,3 +1037,73 @@ Proof.
     assert (Hn' : n' = len (skipz 3 T)) by (rewrite len_skipz by lia; lia). rewrite Hn' in Es.
     rewrite (slc_restrict _ _ HR (no_trunc_skipz 3 T Hnt ltac:(lia)) Es). cbn [rbind]. rewrite <- Hn'. exact H.
 Qed.
+
+(* --- generic: a "for step() {}" loop that consumed the rest of T, started at offset k -------------- *)
+Lemma repl_restrict_all f T R k : local f -> stop0 f -> nonneg f -> R <> [] -> 0 <= k <= len T ->
+  repl f (skipz k (T ++ R)) = Ok (len T - k) ->
+  repl f (skipz k (T ++ [0])) = Ok (len T - k).
+Proof.
+  intros Hl Hs Hn HR Hk H. unfold repl in *. rewrite skipz_app_le in * by lia.
+  replace (len T - k) with (len (skipz k T)) in * by (rewrite len_skipz by lia; reflexivity).
+  apply (rep_restrict_all _ Hl Hs Hn _ _ _ HR H).
+  rewrite app_length. cbn [length]. lia.
+Qed.
+
+(* the comment scanner declines on '/' followed by neither '/' nor '*' *)
+Lemma comment_err_shape l n sl : comment l = Ok (n, ErrorToken, ENone, sl) ->
+  exists c, pkl l 1 = Ok c /\ (c =? 47) = false /\ (c =? 42) = false /\ n = 0 /\ sl = false.
+Proof.
+  intros H. unfold comment in H. destruct (pkl l 1) as [c| |] eqn:Ec; cbn [rbind] in H; try discriminate.
+  exists c. split; [reflexivity|].
+  destruct (c =? 47).
+  { exfalso. crunch H. assert (CommentToken = ErrorToken) by congruence. discriminate. }
+  destruct (c =? 42).
+  { exfalso. crunch H.
+    - assert ((if b then CommentLineTerminatorToken else CommentToken) = ErrorToken) by congruence. destruct b; discriminate.
+    - assert (ECommentEOF = ENone) by congruence. discriminate. }
+  repeat split; congruence.
+Qed.
+
+Lemma comment_decline T R n e sl : T <> [] ->
+  comment (T ++ R) = Ok (n, ErrorToken, e, sl) -> e = ENone ->
+  comment (T ++ [0]) = Ok (n, ErrorToken, e, sl).
+Proof.
+  intros HT H ->. destruct (comment_err_shape _ _ _ H) as (c & Ec & E47 & E42 & -> & ->).
+  unfold comment. destruct T as [|t0 T]; [congruence|]. cbn [app] in *.
+  destruct T as [|t1 T]; cbn [app] in *.
+  - rewrite pkl_1. cbn [rbind]. reflexivity.
+  - rewrite pkl_1 in Ec |- *. cbn [rbind]. assert (t1 = c) by congruence. subst t1. rewrite E47, E42. reflexivity.
+Qed.
+
+(* an operator token is never the start of an HTML-like comment when nothing follows it *)
+Lemma html_decline plt T R ty : R <> [] -> op (T ++ R) = Ok (len T, ty) -> html_comment plt (T ++ [0]) = Ok 0.
+Proof.
+  intros HR H. destruct R as [|r0 R]; [congruence|]. clear HR.
+  destruct T as [|t0 [|t1 [|t2 [|t3 [|t4 T]]]]]; cbn [app] in *; rewrite ?len_cons in *;
+    change (len (@nil Z)) with 0 in *; unfold op in H;
+    rewrite ?pkl_cons_0, ?pkl_1, ?pkl_2, ?pkl_3 in H; cbn [rbind] in H.
+  - crunch H; exfalso; match type of H with Ok (?a, _) = Ok (?b, _) => assert (a = b) by congruence; lia end.
+  - crunch H; try (exfalso; match type of H with Ok (?a, _) = Ok (?b, _) => assert (a = b) by congruence; lia end);
+      unfold html_comment; rewrite ?pkl_cons_0, ?pkl_1; cbn [rbind]; repeat (pick; cbn [rbind]); reflexivity.
+  - crunch H; try (exfalso; match type of H with Ok (?a, _) = Ok (?b, _) => assert (a = b) by congruence; lia end);
+      unfold html_comment; rewrite ?pkl_cons_0, ?pkl_1, ?pkl_2; cbn [rbind]; repeat (pick; cbn [rbind]); reflexivity.
+  - crunch H; try (exfalso; match type of H with Ok (?a, _) = Ok (?b, _) => assert (a = b) by congruence; lia end);
+      unfold html_comment; rewrite ?pkl_cons_0, ?pkl_1, ?pkl_2, ?pkl_3; cbn [rbind]; repeat (pick; cbn [rbind]); reflexivity.
+  - crunch H; try (exfalso; match type of H with Ok (?a, _) = Ok (?b, _) => assert (a = b) by congruence; lia end);
+      unfold html_comment; rewrite ?pkl_cons_0, ?pkl_1, ?pkl_2, ?pkl_3; cbn [rbind]; repeat (pick; cbn [rbind]); reflexivity.
+  - pose proof (len_nonneg T). crunch H; exfalso; match type of H with Ok (?a, _) = Ok (?b, _) => assert (a = b) by congruence; lia end.
+Qed.
+
+(* an HTML-like comment token, lexed at the start of an input (where prevLineTerminator is true) *)
+Lemma html_comment_restrict_true plt T R n : R <> [] -> no_trunc T = true ->
+  html_comment plt (T ++ R) = Ok n -> n = len T -> 0 < n ->
+  html_comment true (T ++ [0]) = Ok n.
+Proof.
+  intros HR Hnt H Hn Hpos. destruct plt; [eapply html_comment_restrict; eassumption|].
+  (* prevLineTerminator was false: the token starts with "<!--", for which the flag is irrelevant *)
+  pose proof (html_comment_restrict false T R n HR Hnt H Hn Hpos) as H'.
+  unfold html_comment in H' |- *. cbn [andb] in H'.
+  destruct (pkl (T ++ [0]) 0) as [c| |] eqn:E0; cbn [rbind] in H' |- *; try discriminate.
+  match type of H' with rbind ?e _ = _ => destruct e as [op| |] eqn:Eo; cbn [rbind] in H' |- *; try discriminate end.
+  destruct op; [exact H'|]. cbn [rbind] in H'. assert (n = 0) by congruence. lia.
+Qed.
